@@ -1,6 +1,6 @@
 # Sizing and claim for C04 (ST::string value semantics)
 SPEC = {
-    "quick": {"rc_cases": 3000, "rc_procs": 8},
+    "quick": {"rc_cases": 40000, "rc_procs": 12},
     "thorough": {"rc_cases": 80000, "rc_procs": 12, "fuzz_secs": 180, "fuzz_workers": 8},
     "assumptions": [
         "the allocation registry sees every operator new/delete; blocks are attributed to the library when allocated inside a library call",
